@@ -52,7 +52,7 @@ def source(sfx, p, with_inner=True, variant=0):
     S = "__" + sfx
     L = ["from utype import Schema, DataClass, Field, Options, Lax", "import utype",
          "from typing import List, Dict, Tuple, Set, Optional, Any, Generator, Annotated, Union, Literal, Deque",
-         "from collections import deque",
+         "from collections import deque, defaultdict",
          "from sim.faults import Leaf, hook_point", "",
          "import enum", "class EnumOfLists(enum.Enum):", "    A = [1, 1]", "    B = [2, 2]", "",
          "def fac_list():", "    hook_point('fac_list')", "    return [7]", "",
@@ -76,6 +76,7 @@ def source(sfx, p, with_inner=True, variant=0):
           "    enl: list = Field(enum=EnumOfLists, required=False)",
           "    lge: list = Field(ge=Lax([0, 0]), required=False)",
           "    dq: Deque[int] = deque([1])", "    dqs: Dict[str, deque] = {'q': deque([1])}",
+          "    dqn: deque = deque([[1]])", "    ddf: dict = defaultdict(list, {'k': [1]})",
           f"    inner: Optional['Inner{S}'] = None", f"    inners: List['Inner{S}'] = Field(default_factory=list)",
           "    leaf: Optional[Leaf] = None", "    def __validate__(self):", "        hook_point('validate')", ""]
     L += [f"class D{S}(DataClass):", f"    __options__ = {opt}", "    n: int", "    lst: List[int] = [1]",
@@ -92,6 +93,8 @@ def source(sfx, p, with_inner=True, variant=0):
     # a class whose options apply to the classes nested in it, holding a union over a nested class
     L += [f"class NIn{S}(Schema):", "    a: int", "",
           f"class NOut{S}(Schema):", "    __options__ = Options(override=True)", f"    x: Union[NIn{S}, int]", ""]
+    # a field that is left out (at its default) under its own 'exclude' policy, and one that depends on it
+    L += [f"class RX{S}(Schema):", "    dep: int = Field(default=0, on_error='exclude')", "    main: int = Field(required=False, dependencies=['dep'])", ""]
     # one Field object shared by two declarations whose types are named by reference (resolved at the first parse)
     L += [f"SHORT{S} = Field(max_length=3, required=False)",
           f"class LitA{S}(Schema):", f"    kind: 'KindT{S}' = SHORT{S}", "",
@@ -198,7 +201,7 @@ def generate(rng, tier):
             # the very same input object handed to a second parse (fields of a bare list / dict / Any type keep the
             # caller's object by design, so such inputs are left out)
             earlier = [m for m, o in enumerate(ops) if o["op"] == "init" and o["cls"] == cls and "same_as" not in o
-                       and not set(o["data"]) & {"raw", "anyv", "tpl", "lax", "leaf", "cst", "enl", "lge"}]
+                       and not set(o["data"]) & {"raw", "anyv", "tpl", "lax", "leaf", "cst", "enl", "lge", "dqn", "ddf"}]
             if earlier and rng.random() < 0.25:
                 m = rng.choice(earlier)
                 ops.append({"op": "init", "cls": cls, "data": copy.deepcopy(ops[m]["data"]), "same_as": m})
@@ -209,7 +212,8 @@ def generate(rng, tier):
             ops.append({"op": "nested_assign", "value": rng.choice(["2", 3, "zz"])})
         elif r < 0.41:
             # an instance made by __from__, initialised again after an initialisation that was refused
-            ops.append({"op": "reinit", "cls": "NIn", "bad": rng.choice(["zz", None, [1]]), "good": rng.choice([2, "3"])})
+            ops.append(rng.choice([{"op": "reinit", "cls": "RX", "good": {"dep": 1, "main": 2}}, {"op": "reinit", "cls": "RX", "good": {"main": 2}}]) if rng.random() < 0.4 else
+                       {"op": "reinit", "cls": "NIn", "bad": rng.choice(["zz", None, [1]]), "good": rng.choice([2, "3"])})
         elif r < 0.42:
             ops.append({"op": "init", "cls": "Own", "data": rng.choice([{"pet": {"kind": "cat"}}, {}, {"pet": {"name": "rex"}}])})
         elif r < 0.435:
@@ -312,6 +316,8 @@ def _mutables(x, out, depth=0):
         out.append(x)
     elif isinstance(x, collections.deque):
         out.append(x)
+        for v in list(x):
+            _mutables(v, out, depth + 1)
     elif isinstance(x, tuple):
         for v in x:
             _mutables(v, out, depth + 1)
@@ -421,13 +427,17 @@ def run_op(world, op, inputs_out=None, prebuilt=None):
 
         def both():
             def second(after_failed):
+                if op["cls"] == "RX":
+                    # the earlier initialisation was accepted, but left a field out under its 'exclude' policy
+                    inst = cls.__from__({"dep": "zz"} if after_failed else {"dep": 1})
+                    return _outcome(lambda: [inst.__init__(**op["good"]), inst][1])[1]
                 inst = cls.__from__({"a": 1})
                 if after_failed:
                     _outcome(lambda: inst.__init__(a=op["bad"]))
                 return _outcome(lambda: [inst.__init__(a=op["good"]), inst][1])[1]
             a, b = second(True), second(False)
             if a != b:
-                raise AssertionError(f"initialisation of an instance made by __from__ gives {a} after a refused one, {b} without")
+                raise AssertionError(f"initialisation of an instance made by __from__ gives {a} after a refused one (or one that left a field out), {b} without")
             return kernel.jdump(a)
         return _outcome(both)
     if k == "other_module":
